@@ -53,6 +53,40 @@ theorem go_extract_then_discount [IsStrictOrderedRing K] (capO : Nat → Int) (f
   refine Finset.sum_congr rfl (fun i _ => ?_)
   rw [hsplit i j]; ring
 
+/-- a row that stores no negative value is left whole by the partition, with an empty distrust part. -/
+theorem splitRow_of_nonneg (r : Row K) (h : ∀ e ∈ r, 0 ≤ e.val) : splitRow r = (r, []) := by
+  unfold splitRow
+  have h1 : r.filter (fun e => Scalar.ge e.val Scalar.zero) = r :=
+    List.filter_eq_self.mpr (fun e he => by simpa [Scalar.ge] using h e he)
+  have h2 : r.filter (fun e => !Scalar.ge e.val Scalar.zero) = [] :=
+    List.filter_eq_nil_iff.mpr (fun e he => by simpa [Scalar.ge] using h e he)
+  rw [h1, h2]; rfl
+
+/-- Extraction is idempotent, as two successive Go calls: `ExtractDistrust` applied again to the trust part the
+    first call left in place returns (no panic, nil error) a distrust matrix with NO stored entry and leaves the
+    trust part exactly as it was. -/
+theorem go_extract_twice [IsStrictOrderedRing K] (fuel : Nat) (L : CSM K)
+    (hrows : L.rows.length = L.major) (hf : L.major ≤ fuel) (hsq : L.major = L.minor) :
+    ∃ st P gD st' D', Gen.ExtractDistrust fuel (toGM L) = .ok (st, (gD, none)) ∧ st.localTrust = toGM P ∧
+      Gen.ExtractDistrust fuel st.localTrust = .ok (st', (toGM D', none)) ∧ st'.localTrust = st.localTrust ∧
+      D'.rows.length = L.major ∧ ∀ r ∈ D'.rows, r = [] := by
+  obtain ⟨st, P, D, ha, hb, _, hP, _, _, _, hdims, _⟩ := go_extract_spec fuel L hrows hf hsq
+  obtain ⟨d1, d2, d3, _⟩ := hdims
+  obtain ⟨st', P', D', ha', hb', hm⟩ := go_extract_ok fuel P (by omega) (by omega) (by omega)
+  obtain ⟨_, hP', hD'⟩ := extractDistrust_ok hm
+  have hsplit : P.rows.map splitRow = P.rows.map (fun r => (r, ([] : Row K))) :=
+    List.map_congr_left (fun r hr => splitRow_of_nonneg r (hP r hr))
+  rw [hsplit] at hP' hD'
+  have hPP : P' = P := by
+    rw [hP']; simp [List.map_map, Function.comp_def]
+  refine ⟨st, P, toGM D, st', D', ha, hb, by rw [hb]; exact ha', by rw [hb', hPP, hb], ?_, ?_⟩
+  · rw [hD']; simp; omega
+  · intro r hr
+    rw [hD'] at hr
+    simp only [List.map_map, List.mem_map, Function.comp_apply] at hr
+    obtain ⟨_, _, rfl⟩ := hr
+    rfl
+
 /-- Non-vacuity: a square two-peer matrix with a negative entry, a well-formed score vector. -/
 example : ({ major := 2, minor := 2, rows := [[⟨1, -1⟩], [⟨0, 2⟩]] } : CSM ℚ).rows.length = 2 ∧
     WF 2 ([⟨0, 1/2⟩, ⟨1, 1/2⟩] : List (Entry ℚ)) := by
